@@ -52,6 +52,9 @@ def main():
     os._exit(rc)
 
 
+ALIAS_PROPS = ('C01', 'C02', 'C03', 'C06', 'C29', 'C30')
+
+
 def attributable_to_repo(pid, text):
     """A checker failure whose innermost reported Python frame lies inside the repository under test (e.g. a traceback a
     worker process sent back) means the implementation raised under inputs that are fine on the unchanged tree: the
@@ -84,7 +87,11 @@ def run_check(pid, tier, seed, args):
 
     if args.replay:
         data = json.load(open(args.replay))
-        ok, msg = mod.replay(ctx, data)
+        if data.get('kind') == 'alias':
+            import alias_lib
+            ok, msg = alias_lib.replay(data)
+        else:
+            ok, msg = mod.replay(ctx, data)
         print(('REPLAY-PASSES ' if ok else 'REPLAY-FAILS ') + str(msg))
         return 0 if ok else 1
 
@@ -145,6 +152,9 @@ def run_check(pid, tier, seed, args):
     # 3. correspondence + oracle ----------------------------------------------------------------
     try:
         mod.run(ctx)
+        if pid in ALIAS_PROPS:     # shared aliasing checks on caller-owned lists (harness/alias_lib.py)
+            import alias_lib
+            alias_lib.check(ctx, pid)
     except InfraError:
         raise
     except Exception as exc:  # noqa: BLE001
